@@ -79,6 +79,14 @@ fn driver_run(op: &Value) -> Result<Option<Value>, String> {
             .collect();
         driver.spawn(async move {
             for (idx, (d, e, style)) in steps.into_iter().enumerate() {
+                if style == 3 {
+                    // the crate's own periodic task: one frame of AsyncDisplayTask (sleeps max(d, 1), emits its event)
+                    if let Some(ev) = e {
+                        sc62015_core::AsyncDisplayTask::new(d, DriverEvent::User(ev)).run_frames(1).await;
+                    }
+                    log.borrow_mut().push((id, idx as u64, current_cycle()));
+                    continue;
+                }
                 if let Some(nap) = naps[idx].take() {
                     nap.await;
                 } else if style == 1 {
